@@ -7,6 +7,9 @@ fn arg<'a>(args: &'a [String], name: &str) -> Option<&'a str> {
     args.iter().position(|a| a == name).and_then(|i| args.get(i + 1)).map(|s| s.as_str())
 }
 
+#[global_allocator]
+static ALLOC: vh::memsafe::CountingAlloc = vh::memsafe::CountingAlloc;
+
 fn finish(sum: &Summary, out: Option<&str>) -> ! {
     let js = serde_json::to_string(sum).unwrap();
     match out {
@@ -107,6 +110,34 @@ fn main() {
             let known: Vec<String> = arg(&args, "--known").map(|s| s.split(',').filter(|x| !x.is_empty()).map(|x| x.to_string()).collect()).unwrap_or_default();
             let sum = run_prop(&spec, cases, seed, replay_dir, &known);
             finish(&sum, out);
+        }
+        "gen-corpus" => {
+            // vh gen-corpus <hist|edges> <dir> <n> <seed>: write n tapes whose decoded case is
+            // non-trivial, as little-endian bytes (seed corpus of the libFuzzer targets)
+            let target = args.get(2).expect("target");
+            let dir = args.get(3).expect("dir");
+            let n: usize = args.get(4).map(|s| s.parse().unwrap()).unwrap_or(100);
+            let mut st: u64 = args.get(5).map(|s| s.parse().unwrap()).unwrap_or(1);
+            std::fs::create_dir_all(dir).unwrap();
+            let mut written = 0;
+            let mut tries = 0;
+            while written < n && tries < 200 * n {
+                tries += 1;
+                let len = 40 + (vh::tape::splitmix(&mut st) % 360) as usize;
+                let tape: Vec<u32> = (0..len).map(|_| vh::tape::splitmix(&mut st) as u32).collect();
+                let keep = if target == "edges" {
+                    vh::enc::gen_enc_case(&tape).nontrivial()
+                } else {
+                    let (_, out) = vh::memsafe::run_tape(&tape);
+                    out.violations.is_empty() && out.labels.contains(&"nontrivial")
+                };
+                if keep {
+                    let bytes: Vec<u8> = tape.iter().flat_map(|w| w.to_le_bytes()).collect();
+                    std::fs::write(format!("{dir}/seed-{written:03}"), bytes).unwrap();
+                    written += 1;
+                }
+            }
+            println!("wrote {written} corpus files after {tries} tries");
         }
         "replay" => {
             let path = args.get(2).expect("replay file");
